@@ -1,3 +1,16 @@
-(* Engine entry points for C08: run_c08 sub-op case.  (stub until the property's model exists) *)
-From Pan Require Import Base.Common Base.Sx.
-Definition run_c08 (sub : Z) (x : sx) : sx := SL [SZ (-1)].
+(* Engine entry points for C08 / C13 / C02: the result object. *)
+From Pan Require Import Base.Common Base.Sx Model.MetricTable Model.EdgeCase Model.Result Run.Codec.
+
+(* sub 1: (np nr tp lists handler) -> result *)
+Definition run_result (x : sx) : sx :=
+  ofRes enc_result (panoptica_result
+    {| r_np := sZ (sNth 0 x); r_nr := sZ (sNth 1 x); r_tp := sZ (sNth 2 x);
+       r_lists := dec_lists (sNth 3 x); r_handler := dec_handler (sNth 4 x) |}).
+
+(* sub 2: (handler metric pe re mval) -> global_bin value *)
+Definition run_global (x : sx) : sx :=
+  ofRes ofF (global_bin (dec_handler (sNth 0 x)) (metric_of_Z (sZ (sNth 1 x)))
+                        (sB (sNth 2 x)) (sB (sNth 3 x)) (sRes sF (sNth 4 x))).
+
+Definition run_c08 (sub : Z) (x : sx) : sx :=
+  if sub =? 1 then run_result x else if sub =? 2 then run_global x else SL [SZ (-1)].
